@@ -10,8 +10,12 @@ def run(ctx):
         "(absent nested messages are nil, repeated elements are never nil); HTTP requests are paths on the REST listener.",
         "A panic inside a handler is contained when the caller of the real listener gets an error and the process keeps serving "
         "(grpc recovery interceptor / net/http per-connection recovery); a panic seen on a direct call alone is not a violation.",
+        "Direct calls enter through the daemon's real NodeVersionValidator / NodeVersionStreamValidator, which internal/net/listener.go "
+        "chains outside the recovery interceptor: a panic caught there is counted as the death of the process (such a request is then "
+        "not sent to the real listener, where it would kill the harness).",
         "Node states: fresh (beacon loaded, no DKG), proposal (the node proposed a first DKG with the real command), running "
         "(1-of-1 group loaded through the key store), stopped (beacon shut down with the control command, daemon alive). "
         "The DKG execution phase (an echo broadcast registered) is modelled but not replayed.",
-        "Blocked = no return within 5 s on an otherwise idle daemon; the goroutine dump tells a lock from slowness.",
+        "Blocked = no return within 5 s (25 s when the goroutine is not waiting for a lock); it is a verdict only when the goroutine "
+        "dump shows the handler parked (lock, channel, select, sleep), otherwise the run is inconclusive.",
     ]
